@@ -8,11 +8,13 @@ Inductive tile_type := TUnknown | TMvt | TPng | TJpeg | TWebp | TAvif.
 Definition comp_code (c : compression) : N :=
   match c with CUnknown => 0 | CNone => 1 | CGzip => 2 | CBrotli => 3 | CZstd => 4 end.
 Definition comp_of_code (n : N) : outcome compression :=
-  match n with 0 => Ok CUnknown | 1 => Ok CNone | 2 => Ok CGzip | 3 => Ok CBrotli | 4 => Ok CZstd | _ => Err EInvalid end.
+  if n =? 0 then Ok CUnknown else if n =? 1 then Ok CNone else if n =? 2 then Ok CGzip
+  else if n =? 3 then Ok CBrotli else if n =? 4 then Ok CZstd else Err EInvalid.
 Definition ttype_code (t : tile_type) : N :=
   match t with TUnknown => 0 | TMvt => 1 | TPng => 2 | TJpeg => 3 | TWebp => 4 | TAvif => 5 end.
 Definition ttype_of_code (n : N) : outcome tile_type :=
-  match n with 0 => Ok TUnknown | 1 => Ok TMvt | 2 => Ok TPng | 3 => Ok TJpeg | 4 => Ok TWebp | 5 => Ok TAvif | _ => Err EInvalid end.
+  if n =? 0 then Ok TUnknown else if n =? 1 then Ok TMvt else if n =? 2 then Ok TPng
+  else if n =? 3 then Ok TJpeg else if n =? 4 then Ok TWebp else if n =? 5 then Ok TAvif else Err EInvalid.
 
 (** the header as stored: coordinates are the i32 values on the wire *)
 Record sheader := mkSH {
@@ -36,10 +38,8 @@ Definition i32_of_bytes (b : bytes) : Z :=
   let v := Z.of_N (le_value b) in
   if (v <? 2147483648)%Z then v else (v - 4294967296)%Z.
 
-Definition encode_stored (h : sheader) : outcome bytes :=
-  (* #[deku(assert_eq = "3")] is checked on write too *)
-  if negb (s_version h =? 3) then Err EInvalid else
-  Ok (magic ++ [s_version h]
+Definition stored_bytes (h : sheader) : bytes :=
+     (magic ++ [s_version h]
       ++ le_bytes 8 (s_root_off h) ++ le_bytes 8 (s_root_len h)
       ++ le_bytes 8 (s_meta_off h) ++ le_bytes 8 (s_meta_len h)
       ++ le_bytes 8 (s_leaf_off h) ++ le_bytes 8 (s_leaf_len h)
@@ -52,6 +52,9 @@ Definition encode_stored (h : sheader) : outcome bytes :=
       ++ i32_bytes (s_max_lon h) ++ i32_bytes (s_max_lat h)
       ++ [s_cz h]
       ++ i32_bytes (s_clon h) ++ i32_bytes (s_clat h)).
+Definition encode_stored (h : sheader) : outcome bytes :=
+  (* #[deku(assert_eq = "3")] is checked on write too *)
+  if negb (s_version h =? 3) then Err EInvalid else Ok (stored_bytes h).
 
 (** splitting helper: first [n] elements and the rest, or EOF *)
 Definition split_at (n : nat) (b : bytes) : outcome (bytes * bytes) :=
